@@ -514,6 +514,7 @@ func judge(c callCase) outcome {
 			return harnessf("call %d args: %v", i, err)
 		}
 		// idempotent on what the generator drew; keeps a hand-written case honest too
+		var ok bool
 		if av, ok = complete(structType(p.as), av, 32, false); !ok {
 			return harnessf("call %d args: no such object", i)
 		}
@@ -551,7 +552,7 @@ func judge(c callCase) outcome {
 			}
 			ti, ok := sess.Type(cl.Script.Exc)
 			if !ok {
-				return outcome{status: "unmapped"}
+				return outcome{status: "unmapped", detail: fmt.Sprintf("exception %s is written by %d Go types", cl.Script.Exc, len(sess.ByIDL[cl.Script.Exc]))}
 			}
 			p.excKey = ti.Key
 			v, err := ref.StructFromJSON(p.excT, roundJSON(cl.Script.Value))
@@ -1235,6 +1236,11 @@ func TestCalls(t *testing.T) {
 					}
 					vt.Sample(map[string]interface{}{"program": p.Describe(), "gen": c.Gen, "status": o.status, "detail": vt.Truncate(o.detail, 300)})
 					return
+				}
+				vt.ClassIf(o.detail != "", "detail:"+vt.Truncate(o.detail, 100))
+				if d := os.Getenv("VERIF_C08_DUMP"); d != "" && o.detail != "" {
+					b, _ := json.MarshalIndent(c, "", " ")
+					os.WriteFile(fmt.Sprintf("%s/%s-%d.json", d, o.status, len(b)), b, 0o644)
 				}
 				continue
 			}
